@@ -52,7 +52,7 @@ package mem
 //@   assert at return 1 b.refs.Load() == old(b.refs.Load()) - 1 && b.refs.Load() > 0 && b.rootBuf == old(b.rootBuf) && sameslice(b.data, old(b.data)) && ncalls("Put") == 0 && ncalls("Free") == 0
 //@   assert at call Put#1 old(b.refs.Load()) == 1 && b.rootBuf == b && arg0 == b.origData && b.pool != nil
 //@   assert at call Free#1 old(b.refs.Load()) == 1 && arg0 == b.rootBuf && b.rootBuf != b && ncalls("Put") == 0
-//@   assert at call Put#2 arg1.(*buffer) == b && b.rootBuf == nil
+//@   assert at call Put#2 arg1.(*buffer) == b && b.rootBuf == nil && implies(ncalls("Put") == 1, b.pool == nil && b.origData == nil)
 
 // Slice: an empty range needs no reference; the whole range is another handle on
 // the receiver; a proper sub-range is a new view that takes one reference on the
